@@ -1,7 +1,8 @@
 (* C10 - MAVE-HGVS strings decode to the sequences they are documented to describe.
-   Abstract-syntax level: the term the model of _get_mave_nt chooses; its printing is tied to the code by the
-   correspondence and decoded by an independent parser in the check (partial for the string level). *)
-From VV Require Import Model.Base Model.Pattern Model.Seq Model.Vcf Model.Mave Spec.MaveSpec Proofs.MaveProofs.
+   Abstract-syntax level: the term the model of _get_mave_nt chooses, and - per metadata row - the terms whose printings the
+   model of the to_csv loop body writes to mave_nt (widened to a PAM codon or not) and mave_nt_ref; the printing itself is tied
+   to the code by the correspondence and decoded by an independent parser in the check (partial for the string level). *)
+From VV Require Import Model.Base Model.Pattern Model.Seq Model.Vcf Model.Mave Model.Gpo Model.ToCsv Spec.MaveSpec Proofs.MaveProofs Proofs.MaveRowProofs.
 
 (* for substitutions, deletions, insertions and deletion-insertions of any length at any offset: the variant the code
    prints, applied to a sequence carrying REF at that offset, yields the sequence with REF replaced by ALT; where a
@@ -16,6 +17,49 @@ Proof. exact mave_of_apply. Qed.
 Theorem C10_ins_flanks : forall t p ref alt q s, mave_of t p ref alt = Ok (MIns q s) -> t = VIns /\ q = p /\ s = alt.
 Proof. exact mave_ins_flanks. Qed.
 
+(* one metadata row without background variants: whatever the PAM-codon widening does, mave_nt is the printing of a valid term
+   that turns the PAM-protected targeton sequence into the row's oligonucleotide.  Hypotheses: the row's oligonucleotide is
+   the template with REF replaced by ALT at the row's position (C01), the recorded end is the end of REF, and the PAM edits
+   sharing the codon lie inside the targeton *)
+Theorem C10_row_mave_nt_decodes : forall c mr o x0 (T : dna),
+  row_out c mr = Ok o -> cx_gpo c = None ->
+  p_seq (cx_alt c) = mkSeq x0 T -> s_start (p_seq (cx_seq c)) = x0 ->
+  mr_ref_pos mr = mr_alt_pos mr -> mr_end mr = get_end (mr_alt_pos mr) (zlen (mr_ref mr)) ->
+  let a := mr_alt_pos mr - x0 in
+  0 <= a -> a + zlen (mr_ref mr) <= zlen T ->
+  x0 <= opt_min (mr_alt_pos mr) (mr_start_ppe mr) -> opt_max (mr_end mr) (mr_end_ppe mr) <= x0 + zlen T - 1 ->
+  mr_oligo mr = zfirstn a T ++ mr_alt mr ++ zskipn (a + zlen (mr_ref mr)) T ->
+  exists m, o_mave_nt o = print_mave m /\ mave_apply m T = Some (mr_oligo mr) /\ mave_valid m = true.
+Proof. exact row_mave_nt_decodes. Qed.
+
+(* the widening itself: replacing a larger window that contains the mutation by the corresponding window of the oligonucleotide
+   is the same edit *)
+Theorem C10_widening_same_edit : forall (T alt : dna) a len u w,
+  0 <= u -> u <= a -> 0 <= len -> a + len <= w -> w <= zlen T ->
+  let oligo := zfirstn a T ++ alt ++ zskipn (a + len) T in
+  py_slice u (w + (zlen alt - len)) oligo = py_slice u a T ++ alt ++ py_slice (a + len) w T /\
+  zfirstn u T ++ py_slice u (w + (zlen alt - len)) oligo ++ zskipn w T = oligo.
+Proof. exact widen_same. Qed.
+
+(* mave_nt_ref (with or without background variants) is the printing of a valid term that turns the unprotected reference
+   into the reference carrying only the row's mutation *)
+Theorem C10_row_mave_nt_ref_decodes : forall c mr o x0 (R : dna),
+  row_out c mr = Ok o -> p_seq (cx_seq c) = mkSeq x0 R ->
+  let a := mr_ref_pos mr - x0 in
+  0 <= a -> a + zlen (mr_ref mr) <= zlen R ->
+  exists m, o_mave_nt_ref o = print_mave m /\
+            mave_apply m R = Some (zfirstn a R ++ mr_alt mr ++ zskipn (a + zlen (mr_ref mr)) R) /\ mave_valid m = true.
+Proof. exact row_mave_nt_ref_decodes. Qed.
+
+(* non-vacuity: an SNV at offset 4 next to a PAM edit at offset 5 of the same codon: widened to g.4_5delinsAT *)
+Example C10_row_example :
+  match row_out ex_ctx ex_row with
+  | Ok o => o_mave_nt o = "g.4_5delinsAT"%string /\ o_mave_nt_ref o = "g.4T>A"%string /\
+            exists m, o_mave_nt o = print_mave m /\ mave_apply m (d "ACGTTCGTAC") = Some (d "ACGATCGTAC") /\ mave_valid m = true
+  | Err _ => False
+  end.
+Proof. exact row_example. Qed.
+
 (* non-vacuity: the strings of DESIGN.md appendix A8 *)
 Example C10_examples :
   get_mave_nt 111 90 VSub (d "G") (d "A") = Ok "g.22G>A"%string /\
@@ -27,3 +71,6 @@ Proof. vm_compute. repeat split; reflexivity. Qed.
 
 Print Assumptions C10_mave_of_apply.
 Print Assumptions C10_ins_flanks.
+Print Assumptions C10_row_mave_nt_decodes.
+Print Assumptions C10_widening_same_edit.
+Print Assumptions C10_row_mave_nt_ref_decodes.
